@@ -49,7 +49,13 @@ def specOk (res : List Rec) (q : Query) (store : List Rec) : Bool :=
   res.all (fun r => carriers.contains r) &&
   (res.map (·.key)).eraseDups.length == res.length
 
-def findingOf (q : Query) (store : List Rec) (causes : List String) : List String :=
+def bsAllLt (cfg : Cfg) : Bool :=
+  cfg.bsAscFrom == .lt && cfg.bsAscTo == .lt && cfg.bsDescTo == .lt && cfg.bsDescFrom == .lt
+
+def findingOf (cfg : Cfg) (q : Query) (store : List Rec) (causes : List String) : List String :=
+  let stale (id : String) := if causes.isEmpty then [] else [id]
+  let window := if q.slot.isTime && (q.fromT.isSome || q.toT.isSome) && !bsAllLt cfg then ["C07-window-bounds-operator"] else []
+  let cold (f : Bool) := if !f && store.any (fun r => !carries q.slot r) then ["C07-cold-build-no-zero-filter"] else []
   match q.slot with
   | .value t =>
     if store.any (fun r => r.ct != t) then ["C07-value-index-mixed-types"]
@@ -57,10 +63,10 @@ def findingOf (q : Query) (store : List Rec) (causes : List String) : List Strin
       (if causes.contains "mixed" then ["C07-value-index-mixed-types"] else []) ++
       (if causes.contains "insert" then ["C07-value-insert-wrong-comparator"] else []) ++
       (if causes.contains "update" then ["C07-value-update-stale"] else [])
-  | .created => if causes.isEmpty then [] else ["C07-created-update-stale"]
-  | .updated => if causes.isEmpty then [] else ["C07-updated-update-stale"]
-  | .expire => if causes.isEmpty then [] else ["C07-expire-index-stale"]
-  | .key => if causes.isEmpty then [] else ["C07-key-index-stale"]
+  | .created => stale "C07-created-update-stale" ++ window ++ cold cfg.coldFilterCreated
+  | .updated => stale "C07-updated-update-stale" ++ window ++ cold cfg.coldFilterUpdated
+  | .expire => stale "C07-expire-index-stale" ++ window ++ cold cfg.coldFilterExpire
+  | .key => stale "C07-key-index-stale"
 
 def flagStr (fs : List String) : String := String.join (fs.map (fun f => "\t#F:" ++ f))
 
@@ -89,11 +95,11 @@ def step (d : DSt) (line : String) : DSt × String :=
         let p := s'.pairs (phys d.cfg q.slot)
         let d' := { d with s := s' }
         if p.nd || p.broken then
-          (d', "nd" ++ flagStr (findingOf q s'.store (if p.broken then "mixed" :: p.causes else p.causes)))
+          (d', "nd" ++ flagStr (findingOf d.cfg q s'.store (if p.broken then "mixed" :: p.causes else p.causes)))
         else
           let ok := specOk res q s'.store
           let fl := if ok then [] else
-            (match findingOf q s'.store p.causes with
+            (match findingOf d.cfg q s'.store p.causes with
              | [] => ["C07-unexplained"]
              | fs => fs)
           (d', "r " ++ ",".intercalate (res.map (·.key)) ++ flagStr fl)
